@@ -1393,3 +1393,71 @@ def rf18b(run):
                           'tests the overflow of the combined constant instead of the original operation' % (fn, '/'.join(sorted(names[v] for v in bad)), what),
                           line=guard['l'])
     return n
+
+
+# ---------------------------------------------------------------------------------------------
+# RF32t: trapping divisions are never hoisted, whatever helper decides it
+# ---------------------------------------------------------------------------------------------
+
+def rf32t(run):
+    from lib import printexec as PE
+    rule = 'RF32t'
+    run.rule(rule, 'loop_invariant_p: the leading guard, executed abstractly (helper predicates of the unit included) over model instructions '
+                   'DIV/DIVS/UDIV/UDIVS/MOD/MODS/UMOD/UMODS whose divisor is a non-constant, or the constant 0, -1, 1, 7, 2^32 or 2^32-1 '
+                   'moved into a register, rejects the instruction whenever the division can trap: divisor zero in the width of the '
+                   'opcode, signed division by -1 (minimum value), or an unknown divisor.  Hoisting such a division executes it on '
+                   'paths of the loop that guarded it')
+    gen = run.tu('gen')
+    f = gen.func('loop_invariant_p')
+    run.functions_analysed.add(('gen', f.name))
+    guard = None
+    for st in F.kids(f.body):
+        if st['k'] == 'IfStmt':
+            rets = [x for x in F.walk(st['c'][1]) if x['k'] == 'ReturnStmt']
+            if rets and all(F.kids(r_) and F.const_value(F.kids(r_)[0]) == 0 for r_ in rets):
+                guard = st
+                break
+    if guard is None:
+        raise F.AnalysisBroken('loop_invariant_p: leading guard not found')
+    codes = dict(gen.enum('MIR_insn_code_t'))
+    modes = dict(gen.enum('MIR_op_mode_t'))
+    spec = {'MIR_DIV': (64, True), 'MIR_DIVS': (32, True), 'MIR_UDIV': (64, False), 'MIR_UDIVS': (32, False),
+            'MIR_MOD': (64, True), 'MIR_MODS': (32, True), 'MIR_UMOD': (64, False), 'MIR_UMODS': (32, False)}
+    consts = [None, 0, -1, 1, 7, 1 << 32, (1 << 32) - 1]
+    n = 0
+    for nm, (w, sg) in sorted(spec.items()):
+        for D in consts:
+            # model: insn (id 1), its operand 2 is a register defined by `mov r, D` (insn id 3 through ssa edge id 2 / bb_insn id 4)
+            heap = {1: {'->code': codes[nm], '->nops': 3, '->ops[2].mode': modes['MIR_OP_VAR'], '->ops[2].data': 2 if D is not None else 5,
+                        '->ops[1].mode': modes['MIR_OP_VAR'], '->ops[0].mode': modes['MIR_OP_VAR'], '->ops[1].data': 5, '->ops[0].data': 0},
+                    2: {'->def': 4},
+                    4: {'->insn': 3},
+                    3: {'->code': codes['MIR_MOV'], '->ops[1].mode': modes['MIR_OP_INT'], '->ops[1].u.i': D if D is not None else 0,
+                        '->ops[1].u.u': (D if D is not None else 0) & 0xFFFFFFFFFFFFFFFF, '->ops[0].mode': modes['MIR_OP_VAR']},
+                    5: {'->def': 6}, 6: {'->insn': 7}, 7: {'->code': codes['MIR_ADD'], '->ops[1].mode': modes['MIR_OP_VAR']}}
+            env = {'insn': 1, 'bb_insn': 8}
+            heap[8] = {'->insn': 1}
+            # text-keyed facts for direct `insn->code` tests
+            for k_, v_ in heap[1].items():
+                env['insn' + k_] = v_
+            ex = PE.PrintExec(gen, heap, {}, {})
+            try:
+                v = ex.val(guard['c'][0], env)
+            except F.AnalysisBroken as exn:
+                raise F.AnalysisBroken('loop_invariant_p guard for %s, divisor %s: %s' % (nm, D, exn))
+            if D is None:
+                trap = True
+            else:
+                dw = D & ((1 << w) - 1)
+                trap = dw == 0 or (sg and dw == (1 << w) - 1)
+            n += 1
+            ok = (v is not None and bool(v)) or not trap
+            run.ob(rule, (nm, D), ok, {'opcode': nm, 'divisor': 'not a constant' if D is None else D, 'can trap': trap, 'rejected by the guard': v}
+                   if (D in (None, -1) and nm in ('MIR_DIV', 'MIR_UMODS')) or not ok else None)
+            if not ok:
+                run.violation(rule, f, 'hoisting %s by %s' % (nm, 'a non-constant' if D is None else D),
+                              'loop_invariant_p does not reject %s whose divisor is %s: the division can trap (%s) and loop-invariant code motion '
+                              'moves it in front of the loop, where it runs even when the loop would not have executed it'
+                              % (nm, 'not a known constant' if D is None else 'the constant %d' % D,
+                                 'divisor zero' if (D is None or (D & ((1 << w) - 1)) == 0) else 'minimum value divided by -1'), line=guard['l'])
+    return n
